@@ -1,5 +1,7 @@
 import PgVerif.Proofs.NDSound
 import PgVerif.Proofs.Chart
+import PgVerif.Proofs.GLRSound
+import PgVerif.Model.Decode
 /-!
 # C01 — GLR accepts exactly the language and returns only valid derivations
 
@@ -12,8 +14,14 @@ What is proved, for every grammar, table, input and recognizer behaviour:
   matching token as lookahead, any action of the cell — assembles only parses of
   the input (`C01_path_sound`), hence an accepting path exists only for sentences
   (`C01_accept_sound`).
-The GSS bookkeeping of `glr.py` (sharing, packing, revisits) is validated through
-these verified checkers on its outputs; see DESIGN.md for what stays bounded.
+* the GLR driver itself, as modelled in `Model/GLR.lean` (graph-structured stack, shared
+  heads, packed links, clones per lookahead token, limited re-reductions, revisits of
+  traversed heads, shifts ordered by token end): whenever it answers with a forest the
+  input is a sentence (`C01_glr_model_sound`), whatever the fuel, for every well-formed
+  table, every input and every recognizer behaviour with idempotent layout skipping.
+  The model is tied to `glr.py` by exact correspondence of its packed forests.
+What the implementation's forests contain is judged by the verified checkers on its
+outputs; see DESIGN.md for what stays bounded.
 -/
 namespace Pg
 
@@ -36,5 +44,47 @@ theorem C01_accept_sound (g : Grammar) (T : Table) (inp : Input) (hw : T.wf g = 
     (c : Config) (h : Reach g T inp c) (t : Tree) (e p : Nat)
     (hs : NStep g T inp c (.done (.ok t e p))) : Sentence g inp :=
   ⟨t, nd_sound hw c h t e p hs⟩
+
+/-- **Soundness of the GLR driver model**: for every grammar, well-formed table, input and
+recognizer behaviour (layout skipping idempotent), every lexical-disambiguation setting and every
+fuel: when the model of `GLRParser.parse` answers with a forest, the input is a sentence. Proved
+through an invariant of the graph-structured stack (every node reachable by a stack of derivation
+trees, every link replayable), preserved by new heads, merged links, clones, re-reductions over a
+new link, revisits and shifts (`Proofs/GLRSound.lean`). -/
+theorem C01_glr_model_sound (g : Grammar) (T : Table) (inp : Input) (hw : T.wf g = true)
+    (hidem : ∀ p, inp.skip (inp.skip p) = inp.skip p) (lexDis : Bool) (fuel : Nat) (sF : GLR.GState)
+    (h : GLR.parseGLR g T inp true lexDis fuel = .forest sF) : Sentence g inp :=
+  (GLR.parseGLR_sound hw hidem true lexDis fuel sF h).2 rfl
+
+/-- The same on the data the driver decodes: both hypotheses are the Boolean checks the driver
+evaluates for every table and input of a run (`wf`, `skipidem`). -/
+theorem C01_glr_model_sound_on_decoded_data (g : Grammar) (states : Array StateData) (terms : Array (Nat × Bool))
+    (len : Nat) (skips : Array Nat) (ms : List (Nat × Nat × Nat))
+    (hw : (Table.ofStates states terms).wf g = true)
+    (hid : skipIdemB (Input.ofTables len skips ms) = true) (lexDis : Bool) (fuel : Nat) (sF : GLR.GState)
+    (h : GLR.parseGLR g (Table.ofStates states terms) (Input.ofTables len skips ms) true lexDis fuel = .forest sF) :
+    Sentence g (Input.ofTables len skips ms) :=
+  C01_glr_model_sound g _ _ hw (Input.ofTables_idem len skips ms hid) lexDis fuel sF h
+
+/-! Non-vacuity: on the table of `S → a` and the input `a` the hypotheses hold and the model
+answers with a forest. -/
+def c01G : Grammar := { prods := [⟨0, [.nt 1, .t 0]⟩, ⟨1, [.t 1]⟩], start := 1 }
+def c01T : Table where
+  n := 3
+  sym := fun s => if s = 1 then .nt 1 else if s = 2 then .t 1 else .nt 0
+  cells := fun s => if s = 0 then [(1, [.shift 2])] else if s = 1 then [(0, [.accept])]
+    else if s = 2 then [(0, [.reduce 1])] else []
+  finish := fun _ => [false]
+  gotoL := fun s => if s = 0 then [(1, 1)] else []
+  prior := fun _ => 10
+  prefer := fun _ => false
+def c01I : Input where
+  len := 1
+  skip := fun p => p
+  mlen := fun t p => if t = 1 ∧ p = 0 then some 1 else none
+
+example : c01T.wf c01G = true ∧ (∀ p, c01I.skip (c01I.skip p) = c01I.skip p) := ⟨by decide, fun _ => rfl⟩
+example : (match GLR.parseGLR c01G c01T c01I true false 20 with | .forest _ => true | _ => false) = true := by
+  decide +kernel
 
 end Pg
